@@ -4,3 +4,4 @@ import LapyVerif.Audit.C02
 import LapyVerif.Audit.C06
 import LapyVerif.Audit.C13
 import LapyVerif.Audit.C09
+import LapyVerif.Audit.C05
